@@ -41,12 +41,11 @@ def qseqStr : QSeq → String
 
 partial def qroutineStr (q : QRoutine) : String :=
   let sp (xs : List String) : String := " ".intercalate xs
-  let ep (e : Endpoint) : String := s!"({e.routine.getD "_"} {e.port})"
   s!"(q {q.name} {q.type.getD "_"} ({sp q.inputParams}) ({sp (q.localVars.map fun kv => s!"({kv.1} {kv.2})")}) " ++
-  s!"({sp (q.linked.map fun lk => s!"({lk.1} {sp (lk.2.map fun t => s!"({t.1} {t.2})")})")}) " ++
+  s!"({sp (q.linked.map fun lk => s!"({lk.1} {sp lk.2})")}) " ++
   s!"({sp (q.ports.map fun p => s!"({p.name} {p.dir.name} {p.size})")}) " ++
   s!"({sp (q.resources.map fun r => s!"({r.name} {r.ty.name} {r.value})")}) " ++
-  s!"({sp (q.conns.map fun c => s!"({ep c.1} {ep c.2})")}) " ++
+  s!"({sp (q.conns.map fun c => s!"({c.1} {c.2})")}) " ++
   (match q.rep with | none => "_" | some rp => s!"(rep {rp.count} {qseqStr rp.seq})") ++
   s!" ({sp (q.children.map qroutineStr)}))"
 
@@ -141,6 +140,17 @@ def respond (line : String) : String :=
           | none => "(ok no-reading _)")
        | .error e => Sexp.toString (errSexp e))
     | _, _ => "(bad-request wellscoped)"
+  | some (.atom "sound" :: .atom skip :: r :: _) =>
+    -- hypothesis of C17_compile_raises_only_own_errors on the tree preprocessing and child ordering produce
+    match Routine.ofSexp r with
+    | some r =>
+      (match (do
+          let _ ← (if skip == "1" then pure () else verify r)
+          let r ← preprocessWith Generated.defaultStages r
+          sortTree r : Except Err Routine) with
+       | .ok r' => Sexp.toString (l [a "ok", a (if r'.sound then "sound" else "unsound")])
+       | .error e => Sexp.toString (errSexp e))
+    | none => "(bad-request sound)"
   | some (.atom "aggregate" :: .atom remove :: c :: d :: _) =>
     -- (aggregate <0|1> <croutine> ((res (target expr) ...) ...))
     match CRoutine.ofSexp c, listOfSexp aggEntryOfSexp d with
@@ -162,13 +172,22 @@ def respond (line : String) : String :=
         l (r.inputParams.map fun p => l [a p, a (match formatterOf (((p.splitOn ".").getLast?).getD p).toList with
           | .math => "math" | .mathSubscript => "mathSubscript" | .text => "text")])])
     | none => "(bad-request latex)"
-  | some (.atom "evaluate" :: c :: asg :: _) =>
-    match CRoutine.ofSexp c, listOfSexp localOfSexp asg with
-    | some c, some asg =>
-      match evaluate Cmp.poly c asg with
+  | some (.atom "evaluate" :: c :: asg :: rest) =>
+    -- optional fourth item: the functions_map as a list of (name (param …) body), in dictionary order
+    let fnOf : Sexp → Option FnImpl := fun
+      | .list [.atom n, .list ps, b] => do
+        let ps ← ps.mapM (fun | .atom p => some p | _ => none)
+        some ⟨n, ps, ← Expr.ofSexp b⟩
+      | _ => none
+    let fns : Option (List FnImpl) := match rest with
+      | [] => some []
+      | f :: _ => listOfSexp fnOf f
+    match CRoutine.ofSexp c, listOfSexp localOfSexp asg, fns with
+    | some c, some asg, some fns =>
+      match evaluateWith Cmp.poly c asg fns with
       | .ok c => Sexp.toString (l [a "ok", c.toSexp])
       | .error e => Sexp.toString (errSexp e)
-    | _, _ => "(bad-request evaluate)"
+    | _, _, _ => "(bad-request evaluate)"
   | some (.atom "toq" :: r :: _) =>
     -- QREF export of an uncompiled routine in the model, and whether the model re-imports its own export
     match Routine.ofSexp r with
@@ -177,6 +196,16 @@ def respond (line : String) : String :=
       let back := match q.fromQ sexpCodec with | some _ => "reimported" | none => "reimport-failed"
       s!"(ok {qroutineStr q} {back})"
     | none => "(bad-request toq)"
+  | some (.atom "endpoint" :: .atom s :: _) =>
+    -- `_endpoint_from_qref` and back
+    match Endpoint.ofStr s with
+    | some e => s!"(ok {e.routine.getD "_"} {e.port} {e.toStr})"
+    | none => "(error TypeError)"
+  | some (.atom "target" :: .atom s :: _) =>
+    -- `target.rsplit(".", 1)` and back
+    match targetOfStr s with
+    | some t => s!"(ok {if t.1.isEmpty then "_" else t.1} {if t.2.isEmpty then "_" else t.2} {targetToStr t})"
+    | none => "(error IndexError)"
   | some (.atom "leading" :: ts) =>
     -- (leading (e11 e12 ...) (e21 ...) ...): `_get_leading_terms` on exponent vectors
     match ts.mapM (fun (t : Sexp) => match t with
